@@ -435,6 +435,9 @@ theorem inRange_signed_iff {t : CType} (hs : t.signed = true) (v : Int) :
 theorem width_pos (t : CType) : 0 < t.width := by
   unfold CType.width; cases t.rank <;> simp
 
+theorem width_le (t : CType) : t.width ≤ 64 := by
+  unfold CType.width; cases t.rank <;> simp
+
 theorem arith_signed {t1 t : CType} {r v : Int} (h : arith t1 r = some (t, v)) (hs : t.signed = true) :
     t = t1 ∧ v = r ∧ t.inRange v = true := by
   unfold arith at h
@@ -546,7 +549,9 @@ theorem binop_agrees (op : BinOp) {t1 t2 t : CType} {v1 v2 v : Int}
       · cases h
       · obtain ⟨_, rfl, _⟩ := arith_signed' h1 h
         have : ¬ v2 < 0 := by omega
-        simp [applyBin_def, applyBinSpec, this]
+        have hw := width_le t1
+        have hbig : ¬ v2 > shiftBound := by unfold shiftBound; omega
+        simp [applyBin_def, applyBinSpec, this, hbig]
   · split at h
     · cases h
     · rename_i hc
